@@ -9,7 +9,7 @@ for d in sorted(glob.glob(os.path.join(root, "*", "meta.json"))):
     c = m["caught_by"]
     if m.get("kind") == "benign":
         status = "behaviour-preserving: no check may report it"; benign += 1
-    elif c.startswith("MISSED") or " after " in c.split(":")[0]:
+    elif c.startswith("MISSED") or (m["property"] + " after ") in c and not c.startswith(m["property"] + " as built"):
         status = "missed at first, caught after strengthening"; missed += 1
     else:
         status = "caught as built"
